@@ -258,6 +258,12 @@ pub fn judge_line(
                 }
                 Pred::Unspecified(_) => {
                     model.commit(&pred, n, k, id, &f.payload, seen_of(out));
+                    if line.decode && out.is_err() {
+                        // with decoding on, an error may also mean "accepted as the final fragment,
+                        // group consumed, payload did not decode": the model cannot tell which
+                        model.unknown = true;
+                        model.open = None;
+                    }
                 }
             }
             (info, res)
